@@ -109,7 +109,8 @@ impl std::io::Write for ShortWriter {
 /// One recorded sink call.
 #[derive(Clone, Debug)]
 pub enum Ev {
-    Matched { rs: usize, re: usize, lnum: Option<u64>, off: u64 },
+    /// `buf` is set when the searcher handed over a buffer other than the searched slice itself
+    Matched { rs: usize, re: usize, lnum: Option<u64>, off: u64, buf: Option<Vec<u8>> },
     Context { bytes: Vec<u8>, kind: u8, lnum: Option<u64>, off: u64 },
     Break,
     Binary(u64),
@@ -141,11 +142,14 @@ impl<'a> Sink for Rec<'a> {
         Ok(self.stop_at != Some(usize::MAX))
     }
     fn matched(&mut self, _s: &Searcher, m: &SinkMatch<'_>) -> Result<bool, std::io::Error> {
-        if m.buffer() != self.input {
+        let buf = if m.buffer() != self.input {
             self.foreign_buffer = true;
-        }
+            Some(m.buffer().to_vec())
+        } else {
+            None
+        };
         let r = m.bytes_range_in_buffer();
-        self.events.push(Ev::Matched { rs: r.start, re: r.end, lnum: m.line_number(), off: m.absolute_byte_offset() });
+        self.events.push(Ev::Matched { rs: r.start, re: r.end, lnum: m.line_number(), off: m.absolute_byte_offset(), buf });
         Ok(self.next())
     }
     fn context(&mut self, _s: &Searcher, c: &SinkContext<'_>) -> Result<bool, std::io::Error> {
@@ -327,9 +331,7 @@ pub fn prepare(pattern: &str, flags: &Flags, files: Vec<(Option<Vec<u8>>, Vec<u8
         if searcher.search_slice(&matcher, input, &mut rec).is_err() {
             return Err(2);
         }
-        if rec.foreign_buffer {
-            return Err(3);
-        }
+        // (a buffer other than the slice is passed on to the model as it is; the printers use it for look-ahead)
         // the SinkFinish handed over when begin / event k is refused
         let mut fins = vec![];
         let mut r0 = Rec::new(input, Some(usize::MAX));
@@ -371,9 +373,11 @@ impl Prepared {
                     }
                 };
                 match e {
-                    Ev::Matched { rs, re, lnum, off } => {
-                        add_table(context_haystack(self.multi, f.crlf, input, *re));
-                        evs.push(Val::L(vec![Val::N(0), Val::of_us(*rs), Val::of_us(*re), opt_u64(*lnum), Val::N(*off as u128)]));
+                    Ev::Matched { rs, re, lnum, off, buf } => {
+                        let b: &[u8] = buf.as_deref().unwrap_or(input);
+                        add_table(context_haystack(self.multi, f.crlf, b, *re));
+                        evs.push(Val::L(vec![Val::N(0), Val::of_us(*rs), Val::of_us(*re), opt_u64(*lnum), Val::N(*off as u128),
+                                             Val::of_opt(buf.as_ref().map(|b| Val::of_bytes(b)))]));
                     }
                     Ev::Context { bytes, kind, lnum, off } => {
                         if f.invert {
